@@ -354,9 +354,9 @@ Fixpoint exec (fuel : nat) (code : list N) (ip : N) (m : mstate) {struct fuel} :
   let pop1 (k : value -> list value -> outcome * mstate) :=
     match stk m with v :: s => k v s | [] => fail m EInternal end in
   let pop2 (k : value -> value -> list value -> outcome * mstate) :=
-    match stk m with v1 :: v2 :: s => k v1 v2 s | _ => fail m EInternal end in
+    match stk m with v1 :: v2 :: s => k v1 v2 s | _ => fail (set_stk m []) EInternal end in
   let on (r : res value) (s : list value) :=
-    match r with Ok v => continue (set_stk m (v :: s)) | Err e => fail m e end in
+    match r with Ok v => continue (set_stk m (v :: s)) | Err e => fail (set_stk m s) e end in
   if (op =? OpNop) || (op =? OpPlaceholder) then continue m
   else if op =? OpPush then continue (push m (VInt (Z.of_N arg)))
   else if op =? OpConstant then
@@ -378,7 +378,7 @@ Fixpoint exec (fuel : nat) (code : list N) (ip : N) (m : mstate) {struct fuel} :
   else if op =? OpSet then
     pop2 (fun name v s =>
       match name_of name with
-      | Ok n => continue (mkM s (env_set (menv m) n v) (trace m) (polls m))
+      | Ok n => continue (mkM s (env_set (menv m) n (match v with VIter x _ => x | _ => v end)) (trace m) (polls m))
       | Err e => fail m e
       end)
   else match binop_of_opcode op with
